@@ -2,7 +2,8 @@
 # seed_eval.sh <property-id> <i> : confirm a sub-agent's seeded change in its scratch worktree,
 # store it under /verif/seeded/<id>-<i>/, run the property's check against it in /repo, revert.
 id="$1"; i="$2"; tier="${3:-quick}"
-wt=/tmp/seed/$id; out=/tmp/seed/out_$id
+root="${SEEDROOT:-/tmp/seed}"; tag="${SEEDTAG:-}"
+wt=$root/$id; out=$root/out_$id
 export GOFLAGS=-mod=mod GOPROXY=off
 pkgdir=.
 grep -q "^package expr" $out/demo${i}_test.go && pkgdir=expr
@@ -11,19 +12,19 @@ cd $wt || exit 9
 git checkout -q -- . ; git clean -fdq
 # 1. clean tree: demo passes
 cp $out/demo${i}_test.go $pkgdir/demo${i}_test.go
-go test -vet=off -count=1 -run "^${tname}\$" ./$pkgdir >/tmp/seed/$id.clean.log 2>&1; clean_rc=$?
+go test -vet=off -count=1 -run "^${tname}\$" ./$pkgdir >$root/$id.clean.log 2>&1; clean_rc=$?
 # 2. with the change: compiles, suite (minus TestLog) passes, demo fails
 git apply $out/patch${i}.diff || { echo "$id-$i: patch does not apply"; rm -f $pkgdir/demo${i}_test.go; exit 8; }
-go test -vet=off -count=1 -run "^${tname}\$" ./$pkgdir >/tmp/seed/$id.mut.log 2>&1; mut_rc=$?
+go test -vet=off -count=1 -run "^${tname}\$" ./$pkgdir >$root/$id.mut.log 2>&1; mut_rc=$?
 rm -f $pkgdir/demo${i}_test.go
-go test -vet=off -count=1 ./... >/tmp/seed/$id.suite.log 2>&1
-fails=$(grep -E "^--- FAIL" /tmp/seed/$id.suite.log | grep -v "TestLog " | wc -l)
-build_ok=$(grep -c "build failed\|cannot\|undefined" /tmp/seed/$id.suite.log)
+go test -vet=off -count=1 ./... >$root/$id.suite.log 2>&1
+fails=$(grep -E "^--- FAIL" $root/$id.suite.log | grep -v "TestLog " | wc -l)
+build_ok=$(grep -c "build failed\|cannot\|undefined" $root/$id.suite.log)
 git checkout -q -- . ; git clean -fdq
 echo "$id-$i: demo clean rc=$clean_rc (want 0), demo with change rc=$mut_rc (want !=0), other suite failures=$fails (want 0)"
 if [ $clean_rc -ne 0 ] || [ $mut_rc -eq 0 ] || [ $fails -ne 0 ]; then echo "$id-$i: NOT CONFIRMED"; exit 7; fi
 # 3. store
-d=/verif/seeded/$id-$i; mkdir -p $d
+d=/verif/seeded/$id-$tag$i; mkdir -p $d
 cp $out/patch${i}.diff $d/patch.diff; cp $out/demo${i}_test.go $d/demo_test.go; cp $out/note${i}.txt $d/note.txt
 # 4. run the check against it in /repo
 cd /repo && git apply $d/patch.diff || { echo "$id-$i: patch does not apply to /repo"; exit 6; }
@@ -31,7 +32,7 @@ cd /verif && timeout 3000 ./vcheck $id --tier $tier -timeout 1200s > $d/check.$t
 cd /repo && (git apply -R $d/patch.diff 2>/dev/null || git checkout -q -- .); git clean -fdq -e logs
 caught=no; [ $rc -eq 1 ] && caught=yes; [ $rc -eq 2 ] && caught=inconclusive
 viol=$(grep -m1 "violation:" $d/check.$tier.log | sed 's/^ *//' | cut -c1-160)
-python3 - "$id" "$i" "$tier" "$rc" "$caught" "$viol" <<'PY'
+python3 - "$id" "$tag$i" "$tier" "$rc" "$caught" "$viol" <<'PY'
 import json,sys,os
 pid,i,tier,rc,caught,viol=sys.argv[1:7]
 d='/verif/seeded/%s-%s'%(pid,i)
